@@ -170,6 +170,23 @@ SocDataHermitian(soc) ==
    /\ \A R \in soc.rsS : VNeg(R) \in soc.rsS
    /\ \A st \in {"00", "11"} : \A R \in soc.rsS : \A m, n \in 1..soc.up.nw : \A c \in 1..3 :
           soc.D[st][VNeg(R)][n][m][c] = GConj(soc.D[st][R][m][n][c])
+(* SOC data: terms [st, R, m, n, c, t], hermitian completion inside the diagonal spin blocks *)
+SocSlots(nw) == {sl \in [st : {"00", "11", "01"}, R : {Z3, <<1, 0, 0>>}, m : 1..nw, n : 1..nw, c : 1..3] : TRUE}
+SocTerms(nw) == {[st |-> sl.st, R |-> sl.R, m |-> sl.m, n |-> sl.n, c |-> sl.c, t |-> t] : sl \in SocSlots(nw), t \in {<<1, 0>>, <<0, 1>>}}
+SelfConj(tm) == tm.st # "01" /\ tm.R = Z3 /\ tm.m = tm.n
+SocTermSets(nw, maxsoc) == {T \in UNION {kSubset(j, SocTerms(nw)) : j \in 0..maxsoc} :
+                       /\ \A tm \in T : SelfConj(tm) => GIsReal(tm.t)
+                       /\ \A t1, t2 \in T : (t1.st = t2.st /\ t1.R = t2.R /\ t1.m = t2.m /\ t1.n = t2.n /\ t1.c = t2.c) => t1 = t2}
+SocFromTerms(nw, T) ==
+   LET rsS == {Z3} \cup {tm.R : tm \in T} \cup {VNeg(tm.R) : tm \in T}
+   IN [rsS |-> rsS,
+       D |-> [st \in {"00", "11", "01"} |-> FunR(rsS, LAMBDA R : Mat(nw, LAMBDA m, n : Vec(3, LAMBDA c :
+                FoldSet(LAMBDA tm, acc : GAdd(acc, GAdd(
+                           IF tm.st = st /\ tm.R = R /\ tm.m = m /\ tm.n = n /\ tm.c = c THEN tm.t ELSE GZ,
+                           IF st # "01" /\ ~SelfConj(tm) /\ tm.st = st /\ VNeg(tm.R) = R /\ tm.n = m /\ tm.m = n /\ tm.c = c
+                              THEN GConj(tm.t) ELSE GZ)), GZ, T))))]]
+SocCatalogue(nw, maxsoc) == {SocFromTerms(nw, T) : T \in SocTermSets(nw, maxsoc)}
+
 (* Data_K_soc.HH_K *)
 HkSOC(soc, k) == MatAdd(Interlace(Hk(soc.up, k), Hk(soc.dn, k)),
                         IF soc.hassoc THEN FTe(soc.rsS, HamSOC(soc), 2 * soc.up.nw, k, NoPhase) ELSE MatZero(2 * soc.up.nw))
@@ -209,6 +226,10 @@ Interpolate(s0, s1, a, den) ==
        hasX |-> both,
        X |-> IF both THEN FunR(rs, LAMBDA R : Mix(s0.rs, s0.X, s1.rs, s1.X, s0.nw, a, den, R)) ELSE NoX(rs, s0.nw),
        spinor |-> s0.spinor]
+(* wrong variant: only the R-vectors common to both systems are kept *)
+InterpolateIntersect(s0, s1, a, den) ==
+   LET full == Interpolate(s0, s1, a, den)  rs == s0.rs \cap s1.rs
+   IN [full EXCEPT !.rs = rs, !.H = FunR(rs, LAMBDA R : full.H[R]), !.X = FunR(rs, LAMBDA R : full.X[R])]
 InterpolateLaws(s0, s1, a, den, t, KS) ==
    /\ HermSys(t)
    /\ t.hasX = (s0.hasX /\ s1.hasX)
@@ -327,8 +348,8 @@ TbmImportIsSource(m) == \A R \in DOMAIN m.sem : Ext(TbmRs(m), TbmImport(m).H, m.
 (* models.py: Haldane_ptb / Haldane_tbm(delta, hop1, hop2, phi) with t2 = hop2 exp(i phi); the same hopping list in both *)
 HaldanePos == << <<4, 4, 0>>, <<8, 8, 0>> >>                                  \* [1/3, 1/3], [2/3, 2/3]
 HaldaneHops(hop1, t2) == LET t2c == GConj(t2) IN
-   << [t |-> hop1, i |-> 1, j |-> 2, R |-> <<0, 0, 0>>], [t |-> hop1, i |-> 2, j |-> 1, R |-> <<1, 0, 0>>],
-      [t |-> hop1, i |-> 2, j |-> 1, R |-> <<0, 1, 0>>], [t |-> t2, i |-> 1, j |-> 1, R |-> <<1, 0, 0>>],
+   << [t |-> GInt(hop1), i |-> 1, j |-> 2, R |-> <<0, 0, 0>>], [t |-> GInt(hop1), i |-> 2, j |-> 1, R |-> <<1, 0, 0>>],
+      [t |-> GInt(hop1), i |-> 2, j |-> 1, R |-> <<0, 1, 0>>], [t |-> t2, i |-> 1, j |-> 1, R |-> <<1, 0, 0>>],
       [t |-> t2, i |-> 2, j |-> 2, R |-> <<1, -1, 0>>], [t |-> t2, i |-> 2, j |-> 2, R |-> <<0, 1, 0>>],
       [t |-> t2c, i |-> 2, j |-> 2, R |-> <<1, 0, 0>>], [t |-> t2c, i |-> 1, j |-> 1, R |-> <<1, -1, 0>>],
       [t |-> t2c, i |-> 1, j |-> 1, R |-> <<0, 1, 0>>] >>
